@@ -2609,6 +2609,27 @@ impl<'a> Socket<'a> {
         }
 
         // Construct the lowered IP representation.
+        // A zero-window probe has to carry an octet the remote must answer. When everything
+        // queued is already in flight there is no new octet to offer: probe with the oldest
+        // unacknowledged one instead (RFC 9293 3.8.6.1), otherwise the probe is an empty
+        // segment the remote accepts silently, and in-flight data that was lost would never
+        // be retransmitted because the probe timer has replaced the retransmission timer.
+        if matches!(
+            self.state,
+            State::Established
+                | State::FinWait1
+                | State::Closing
+                | State::CloseWait
+                | State::LastAck
+        ) && !self.pending_fast_retransmit
+            && self.remote_win_len == 0
+            && self.timer.should_zero_window_probe(cx.now())
+            && !self.tx_buffer.is_empty()
+            && self.flight_size() >= self.tx_buffer.len()
+        {
+            self.remote_last_seq = self.local_seq_no;
+        }
+
         // We might need this to calculate the MSS, so do it early.
         let mut ip_repr = IpRepr::new(
             tuple.local.addr,
